@@ -1,7 +1,7 @@
 (* C02 — derived edges are exactly the boundary segments of the faces.
    Statements only; each closed by `exact` of a lemma from Proofs/, followed by Print Assumptions. *)
 From Coq Require Import Sorting.Permutation.
-From Verif Require Import Base C02 C02_proofs C02_check C02_check_proofs C02_sup C02_sup_proofs.
+From Verif Require Import Base C02 C02_proofs C02_check C02_check_proofs C02_sup C02_sup_proofs C02_onto_proofs.
 
 (* edge_node_connectivity lists exactly the unordered consecutive corner pairs (incl. closing pair) *)
 Theorem C02_edges_exact : forall m t q, std_table m t -> (In q (edges t) <-> In q (spec_pairs t)).
@@ -82,3 +82,17 @@ Print Assumptions C02_supplied_edges_exact.
 Theorem C02_supplied_face_edge : forall m t S, std_table m t -> sup_fe_ok t m (sup_face_edges t m S).
 Proof. exact sup_face_edge_spec. Qed.
 Print Assumptions C02_supplied_face_edge.
+
+(* ---- no orphan edges; counting ---- *)
+(* every derived edge is the j-th edge of some face f: face_edge_connectivity is onto the edge table *)
+Theorem C02_face_edge_onto : forall m t e, std_table m t -> (e < length (edges t))%nat ->
+  exists f r fe j, nth_error t f = Some r /\ nth_error (face_edges t m) f = Some fe /\ (j < first_fill r)%nat /\
+                   nth_error fe j = Some (Z.of_nat e).
+Proof. exact face_edge_onto. Qed.
+Print Assumptions C02_face_edge_onto.
+
+(* n_edge never exceeds the number of corners *)
+Theorem C02_n_edge_le_corners : forall m t, std_table m t ->
+  (length (edges t) <= length (flat_map (fun r => cyc_pairs (corners r)) t))%nat.
+Proof. exact n_edge_le_corners. Qed.
+Print Assumptions C02_n_edge_le_corners.
